@@ -77,6 +77,7 @@ class Observer:
             res = self.I.run(pj, ins)
         self.rwcheck(p, att, pj, pj2, hist)
         self.sidecheck(p, att, pj, ins, res, hist)
+        self.sidecheck2(p, att, pj, pj2, p2, ins, res, hist)
         res2 = self.I.run(pj2, ins)
         c["pairs-executed"] = c.get("pairs-executed", 0) + 1
         nontrivial = False
@@ -211,7 +212,46 @@ class Observer:
                     "before": str(p), "input": i})
                 break
 
+    def sidecheck2(self, p, att, pj, pj2, p2, ins, res, hist):
+        """correspondence B for the other modelled primitives (docs/C01Side.md): the semantic side condition of the
+        primitive's `_in_context` theorem is evaluated by the Lean evaluator `SideTie.check` at every dynamic visit of the
+        rewritten position on the sampled valid inputs.  `static` (a syntactic hypothesis of the theorem does not hold for
+        the instance) and `nocond` are counted, never reported."""
+        if att["op"] == "reorder_stmts":
+            return
+        import sidecheck as SC
+        c = self.rec["counts"]
+        try:
+            pr = SC.params(att, p)
+        except Exception:
+            pr = None
+        if pr is None:
+            return
+        good = [i for i, r in zip(ins, res) if "ok" in r][:2]
+        if not good:
+            return
+        name, path, k, flag = pr
+        out = SC.check(pj, pj2, name, path, k, flag, good)
+        st, visits, failing = SC.summarize(out)
+        c[f"sidecheck:{att['op']}:{st}"] = c.get(f"sidecheck:{att['op']}:{st}", 0) + 1
+        c["sidecheck:visits"] = c.get("sidecheck:visits", 0) + (visits or 0)
+        if st == "violation":
+            inp = next((i for i, r in zip(good, out) if r.get("visits", 0) > r.get("holds", 0)), good[0])
+            key = classify_mismatch(att, p, p2, "side condition fails", pj, inp)
+            if key.endswith(":semantic-mismatch"):
+                key = f"{att['op']}:side-condition-fails"
+            self.rec["records"].append({
+                "kind": "side-condition", "key": key,
+                "what": f"{att['op']} accepted, but the side condition of its theorem fails at {failing} of {visits} dynamic visits on a valid input",
+                "att": att, "hist": hist, "program": self.rec["name"], "src": self.src, "before": str(p), "after": str(p2),
+                "input": inp})
+
     def finish(self):
+        try:
+            import sidecheck as SC
+            SC.close()
+        except BaseException:
+            pass
         if getattr(self, "D2", None) is not None:
             self.D2.close()
         if self.I:
